@@ -2,12 +2,12 @@
 
 CHECK = {
     "harnesses": [
-        {"exe": "c06_calculus", "flavour": "plain", "cases": (180000, 2000000), "procs": (3, 5),
+        {"exe": "c06_calculus", "flavour": "plain", "cases": (180000, 3600000), "procs": (3, 5),
          "subs": ["functions", "constraints", "surrogate"]},
-        {"exe": "c06_losses", "flavour": "plain", "cases": (120000, 1600000), "procs": (2, 4), "subs": ["losses"]},
-        {"exe": "c06_objectives", "flavour": "plain", "cases": (30000, 450000), "procs": (3, 5), "subs": ["objectives"]},
+        {"exe": "c06_losses", "flavour": "plain", "cases": (120000, 2400000), "procs": (2, 4), "subs": ["losses"]},
+        {"exe": "c06_objectives", "flavour": "plain", "cases": (30000, 900000), "procs": (3, 5), "subs": ["objectives"]},
     ],
-    "min_nontrivial": (100000, 1500000),
+    "min_nontrivial": (100000, 2000000),
     "timeout": (900, 7200),
     "rule": ("object in {48 registered benchmark functions made at dims 1..32 (and 1..60 summands), 17 losses x 1..13 outputs x valid and "
              "arbitrary +-1 / real target patterns, 11 constraint kinds with generated coefficients (symmetric P: low-rank PSD, PD, indefinite, "
